@@ -129,8 +129,14 @@ def bin_pack(res, ea: EnvAnalysis, rule: str) -> int:
                 neg = k_ok and strip_cast(sl.args[0].args[1][0]).kind == "un" and strip_cast(sl.args[0].args[1][0]).args[0] == "-"
                 ems_keys = [k for k in o if k == "ems" or k.startswith("ems.")]
                 same = all(any(x.kind == "index" and x.args[1] is I for x in deps(o[k])) for k in ems_keys) if ems_keys else False
-                ok = bool(k_ok and neg and same)
-                why = f"indices = argsort(-volume)[:obs_num_ems]: {bool(k_ok and neg)}; ems coordinates use the same indices: {same}"
+                masked = False
+                if k_ok and neg:
+                    key = strip_cast(strip_cast(sl.args[0].args[1][0]).args[1])
+                    # inactive (deleted) EMS keep stale coordinates: their volume must be zeroed by the mask before ranking
+                    masked = key.kind == "bin" and key.args[0] == "*" and any(strip_cast(m.args[0]) is strip_cast(x) for x in (key.args[1], key.args[2])) if m.kind == "index" else False
+                ok = bool(k_ok and neg and same and masked)
+                why = (f"indices = argsort(-volume)[:obs_num_ems]: {bool(k_ok and neg)}; ranking key is volume * ems_mask (inactive EMS rank last): {masked}; "
+                       f"ems coordinates use the same indices: {same}")
             res.add(rule, *env_site(ea, which), "the EMS shown are the obs_num_ems largest (descending volume), same selection for ems and ems_mask", ok, why)
             n += 1
     return n
